@@ -8,6 +8,7 @@ RULE = ('all TMs with one working state over Gamma={a,blank} (169) and a seeded 
         'states over <= 3 tape symbols (partial delta, left moves at cell 0, blank writes, loops, halting initial state); each with all input words of length <= 3 (<= 2 for '
         '|Sigma|=2) and budgets {0,1,2,5,40}. Observed: tm_accepts_word, tm_simulate_word (every configuration), tm_words_up_to_n. '
         'Non-trivial = the runs of the machine show at least two of the three verdicts or a trace of length >= 4; distinct by machine text.')
+RULE += " Added after the seeded rounds: other blank symbols than '_', words containing tape symbols outside the input alphabet."
 CODES = {2: 'tm_accepts_word verdict differs from the proved model', 3: 'tm_simulate_word trace differs from the proved model',
          4: 'tm_words_up_to_n differs from the proved enumeration', 9: 'generated TM is not valid (harness)'}
 RESIDUE = 'Python list mutation of the tape (tape[head] = b, append) is modelled by set_nth / ++; Symbol/State are str'
@@ -22,6 +23,10 @@ def _mk(states, sigma, gamma, delta, q0='q0'):
     for n in range(maxlen + 1):
         for w in itertools.product(sigma, repeat=n):
             ws.append(''.join(w))
+    # words that contain tape symbols which are not input symbols (the property speaks of every word): the verdict is still defined
+    extra = [g for g in gamma if g not in sigma]
+    for g in extra[:2]:
+        ws += [g] + [a + g for a in sigma[:1]]
     runs = [[w, k] for w in ws for k in BUDGETS]
     return {'Q': Q, 'Sigma': sigma, 'Gamma': gamma, 'delta': delta, 'q0': q0, 'qa': 'acc', 'qr': 'rej', 'blank': '_',
             'runs': runs, 'enum': [[0, 5], [2, 40], [3, 2]]}
